@@ -208,8 +208,9 @@ def make_list_hash(kind, seed=0, squeeze=0):
     raise HarnessError(f"unknown hash kind {kind}")
 
 
-def make_single_hash(kind, seed=0, bits=64):
-    """hf(key[, seed]) -> int for cuckoo (64-bit) / quotient (32-bit) filters."""
+def make_single_hash(kind, seed=0, bits=64, signed=False):
+    """hf(key[, seed]) -> int for cuckoo (64-bit) / quotient (32-bit) filters.  signed: values in
+    [-2^(bits-1), 2^(bits-1)) like Python's own hash() - a legal int-valued strategy."""
     if kind == "default":
         return None
     salt = seed.to_bytes(8, "little")
@@ -221,7 +222,10 @@ def make_single_hash(kind, seed=0, bits=64):
         v = int.from_bytes(
             hashlib.blake2b(kbytes(key), digest_size=nbytes, key=salt, salt=int(s).to_bytes(8, "little")).digest(), "little"
         )
-        return v & mask
+        v &= mask
+        if signed and v >> (bits - 1):
+            v -= 1 << bits
+        return v
 
     return h1
 
